@@ -12,7 +12,7 @@ open LruM LruM.Lru
 
 /-- After **every** sequence of public operations (insert, two-phase store with more or less than reserved,
     dropped entries, lookups, removals, external deletions, reopen with any mtime order) the indexed bytes plus the
-    reserved bytes never exceed the capacity — unless the cache panicked (see the witnesses below). -/
+    reserved bytes never exceed the capacity — (`poisoned` never becomes true, see `no_panic`). -/
 theorem size_limit (cap : Nat) (ops : List LOp) :
     let c := ops.foldl lstep { cap := cap }
     c.poisoned = false → c.lruSize + c.pendingSize ≤ c.cap := Lru.size_limit cap ops
@@ -21,16 +21,32 @@ theorem size_limit (cap : Nat) (ops : List LOp) :
 example : let c := [LOp.insertBytes 1 10, .insertBytes 2 10, .prepareAdd 3 5].foldl lstep { cap := 20 }
     c.poisoned = false ∧ c.lruSize + c.pendingSize = 15 := by decide
 
-/-- F-C07-a (negative, kernel-checked): two reservations that together exceed the capacity while the index is
-    empty reach `expect("Unexpectedly empty cache!")`. -/
-theorem over_reservation_witness :
-    ((({ cap := 25 } : Lru).prepareAdd 1 15).1.prepareAdd 2 15).2 = .panic := Lru.over_reservation_witness
+/-- `no_panic`: no sequence of public operations — including several concurrent reservations that together exceed
+    the limit, overwrites of existing keys, dropped entries, externally deleted files and reopenings — makes the cache
+    panic (which inside `DiskCache` would poison its mutex for good), and none leaves it poisoned. -/
+theorem no_panic (cap : Nat) (ops : List LOp) (next : LOp) :
+    let c := ops.foldl lstep { cap := cap }
+    c.poisoned = false ∧ lres c next ≠ .panic := Lru.no_panic cap ops next
 
-/-- F-C07-b (negative, kernel-checked): overwriting the least-recently-used key deletes the file just written and
-    keeps it indexed. -/
-theorem self_eviction_witness :
+/-- `oversize_refused`: an entry larger than the whole cache is refused and the state (index, files, reservations)
+    is exactly what it was. -/
+theorem oversize_refused (c : Lru) (k n : Nat) (h : n > c.cap) :
+    c.insertBytes k n = (c, .tooLarge) ∧ c.prepareAdd k n = (c, .tooLarge) := Lru.oversize_refused c k n h
+
+/-- F-C07-a, repaired in /repo: over-reservation with an empty index is refused (was a panic on the pinned tree) -/
+theorem over_reservation_refused :
+    ((({ cap := 25 } : Lru).prepareAdd 1 15).1.prepareAdd 2 15).2 = .tooLarge := Lru.over_reservation_refused
+
+/-- F-C07-b, repaired in /repo: overwriting the least-recently-used key keeps the file just written -/
+theorem self_eviction_fixed :
     let c := (((({ cap := 20 } : Lru).insertBytes 1 10).1.insertBytes 2 10).1.insertBytes 1 10).1
-    c.containsKey 1 = true ∧ c.files.any (·.1 == 1) = false := Lru.self_eviction_witness
+    c.containsKey 1 = true ∧ c.files.any (·.1 == 1) = true := Lru.self_eviction_fixed
+
+/-- F-C07-c (negative, kernel-checked, open): the reservation of a dropped entry is never released — after
+    `prepare_add(9)` + drop on a cache of 10 bytes, 9 bytes stay reserved for ever and a 2-byte insert is refused. -/
+theorem reservation_leak_witness :
+    let c := [LOp.prepareAdd 0 9, .dropEntry 0].foldl lstep { cap := 10 }
+    c.pendingSize = 9 ∧ c.temps = [] ∧ (c.insertBytes 1 2).2 = .tooLarge := by decide
 
 /-- a lookup never changes which files exist -/
 theorem get_keeps_files (c : Lru) (k : Key) : (c.get k).1.files = c.files := Lru.get_keeps_files c k
